@@ -13,8 +13,9 @@ P = {
     "coq_targets": ["Properties/C06.vo", "Run/Eval_C06.vo"],
     "theorems_module": "Properties.C06",
     "theorems": ["C06_history_equals_fresh", "C06_history_equals_fresh_any", "C06_lookups_equal_fresh",
-                 "C06_rejected_is_noop", "C06_rejected_iff_cannot_apply", "C06_deleted_never_match",
-                 "C06_same_source_constraint", "C06_F1_refuted", "C06_F2_refuted", "C06_F6_refuted",
+                 "C06_delete_cleans", "C06_rejected_iff_cannot_apply", "C06_deleted_never_match",
+                 "C06_current_rules_indexed", "C06_same_source_constraint",
+                 "C06_F1_refuted", "C06_F2_refuted", "C06_F6_refuted",
                  "C06_F3_pinned_refuted", "C06_F4_pinned_refuted", "C06_F4_pinned_panic", "C06_F5_pinned_refuted",
                  "C06_repaired_examples", "C06_nonvacuous"],
     "streams": [{
